@@ -8,11 +8,25 @@
 // Operands: H G G2 (m x n), b g y (m x 1), Rfull (m x m), Rblock (s x s, present when
 // the reduced constructor is to be run), params (1 x 3: alpha beta kappa),
 // means (n x comps), covs (n x n*comps), weights (comps x 1), int s, int hkind.
+// (unit_L, unit_e: the physical units the generator applied to the operands; used by the plug-in's tolerances only, not read here.)
 // kind "sukf": one correct() on fresh objects (plus a second, size-mismatching, call on the same SUKF object).
 // kind "sukf_seq": int steps = T; the operands H G G2 b g y Rfull [Rblock] means covs weights hkind carry a
 // suffix _1 .. _T; ONE SUKFCorrection object per constructor flag and ONE UKFCorrection object are driven through
 // the T calls, the harness measurement model being re-programmed between the calls (R, y, h, sizes) and the
 // predicted belief replaced; every call's outputs are printed with the prefix t<step>_.
+// OBJECT LIFETIME (word lifetime = fresh | moved | moved_after_use | vector, int reloc_at, int assign): the property is about every
+// SUKFCorrection / UKFCorrection object however it was obtained.  The classes have hand-written noexcept move constructors
+// (copying is deleted in GaussianCorrection; no move assignment exists because the move constructor is user-declared, UKFCorrection
+// also has const members), so an object is also obtained by  T b(std::move(a))  and by relocation of the elements of a
+// std::vector<T> that grows.  `reloc_at` = number of complete correct()+getLikelihood() calls made on the object before it is
+// relocated (single cases: 1 = a warm-up call on other data of the same shapes; sequences: the relocation happens between call
+// reloc_at and call reloc_at + 1).  moved*: the subject is replaced by an object move-constructed from it (move-ASSIGNED onto a
+// spare object built on other data when `assign` = 1 and the class offers move assignment: compile-time dispatch, reported in
+// move_assignable); vector: the subject is element 0 of a std::vector<T> that is grown by emplace_back of spare objects until it
+// reallocates.  The moved-from object is destroyed and never used again.
+// CALLBACK RE-ENTRANCY (int intrude = 1): inside every callback of the subjects' measurement models independent twin objects
+// (a SUKFCorrection per constructor flag and a UKFCorrection, own models, OTHER data of the same shapes) run a complete
+// correct() + getLikelihood() (vf::intrude, common.hpp); the subjects' results must not change.
 #define VF_MAIN
 #include "common.hpp"
 #include <BayesFilters/AdditiveMeasurementModel.h>
@@ -22,6 +36,9 @@
 #include <BayesFilters/sigma_point.h>
 #include <BayesFilters/utils.h>
 #include <Eigen/SVD>
+#include <functional>
+#include <memory>
+#include <type_traits>
 
 using namespace bfl;
 using namespace Eigen;
@@ -53,20 +70,24 @@ struct FamilyModel : public AdditiveMeasurementModel {
     long mc = 0;     // trailing circular (Euler) rows of the measurement description
     long m_report;   // the measurement size the model reports (harness switch for the second, mismatching, step)
     mutable long noise_calls = 0;
+    bool intrudes = false;   // every callback first lets the intruder (common.hpp) run complete corrections on the twin objects
+    void hook() const { if (intrudes) vf::intrude(); }
     FamilyModel(const Family& f_, const MatrixXd& R_, const MatrixXd& y_, long n_, long m_) : f(f_), R(R_), y(y_), n(n_), m(m_), m_report(m_) {}
-    bool freeze(const Data&) override { return true; }
-    std::pair<bool, Data> measure(const Data&) const override { return std::make_pair(true, Data(y)); }
+    bool freeze(const Data&) override { hook(); return true; }
+    std::pair<bool, Data> measure(const Data&) const override { hook(); return std::make_pair(true, Data(y)); }
     std::pair<bool, Data> predictedMeasure(const Ref<const MatrixXd>& cur_states) const override {
+        hook();
         MatrixXd p = f.eval(cur_states);
         return std::make_pair(true, Data(std::move(p)));
     }
     std::pair<bool, Data> innovation(const Data& predicted_measurements, const Data& measurements) const override {
+        hook();
         MatrixXd innovation = -(any::any_cast<MatrixXd>(predicted_measurements).colwise() - any::any_cast<MatrixXd>(measurements).col(0));
         return std::make_pair(true, Data(std::move(innovation)));
     }
-    std::pair<bool, MatrixXd> getNoiseCovarianceMatrix() const override { noise_calls++; return std::make_pair(true, R); }
-    VectorDescription getInputDescription() const override { return VectorDescription(n - nc, nc, m); }
-    VectorDescription getMeasurementDescription() const override { return VectorDescription(m_report - mc, mc); }
+    std::pair<bool, MatrixXd> getNoiseCovarianceMatrix() const override { hook(); noise_calls++; return std::make_pair(true, R); }
+    VectorDescription getInputDescription() const override { hook(); return VectorDescription(n - nc, nc, m); }
+    VectorDescription getMeasurementDescription() const override { hook(); return VectorDescription(m_report - mc, mc); }
 };
 
 struct Step {
@@ -96,6 +117,55 @@ static GaussianMixture filler(long comps, long n, long nc) {
     corr.mean().setConstant(7.25); corr.covariance().setConstant(-3.5); corr.weight().setConstant(0.125);
     return corr;
 }
+
+// other data of the same shapes (warm-up calls before a relocation, spare objects, the intruder's twins); homogeneous, so it
+// stays in the units of the case
+static Step twin_of(const Step& st) {
+    Step t = st;
+    t.fam.H *= -1.75; t.fam.G *= 0.5; t.fam.G2 *= -0.75; t.fam.b *= 0.25; t.fam.g *= -1.5;
+    t.y *= 0.5; t.Rfull *= 3.0; if (t.has_block) t.Rblock *= 3.0;
+    t.means *= 0.5; t.covs *= 2.0;
+    return t;
+}
+
+// a complete correct() + getLikelihood() whose results are discarded
+static void discard_call(GaussianCorrection& g, const GaussianMixture& pred) {
+    GaussianMixture corr = pred;
+    g.freeze_measurements(); g.correct(pred, corr); g.getLikelihood();
+}
+
+template <typename T> typename std::enable_if<std::is_move_assignable<T>::value, bool>::type
+move_assign_if_possible(T& dst, T& src) { dst = std::move(src); return true; }
+template <typename T> typename std::enable_if<!std::is_move_assignable<T>::value, bool>::type
+move_assign_if_possible(T&, T&) { return false; }
+
+// The object under test and how it came to be (see OBJECT LIFETIME above).
+template <typename T> struct Subject {
+    std::unique_ptr<T> p; std::vector<T> vec; bool in_vec = false;
+    long relocations = 0, assigned = 0;
+    std::function<T*(FamilyModel*)> make;                          // new T over the given model (ownership passes to the object)
+    std::function<void(std::vector<T>&, FamilyModel*)> emplace;    // vec.emplace_back(the same constructor arguments)
+    T& get() { return in_vec ? vec.front() : *p; }
+    void create(bool vector, FamilyModel* mp) {
+        in_vec = vector;
+        if (in_vec) { vec.reserve(1); emplace(vec, mp); } else p.reset(make(mp));
+    }
+    void relocate(bool assign, const std::function<FamilyModel*()>& spare_model) {
+        if (in_vec) {
+            const std::size_t cap = vec.capacity();
+            while (vec.capacity() == cap) emplace(vec, spare_model());    // growth: the elements are relocated with the move constructor
+        } else {
+            std::unique_ptr<T> q;
+            if (assign) {
+                q.reset(make(spare_model()));
+                if (move_assign_if_possible(*q, *p)) assigned++; else q.reset();
+            }
+            if (!q) q.reset(new T(std::move(*p)));
+            p = std::move(q);                                              // the moved-from object is destroyed here
+        }
+        relocations++;
+    }
+};
 
 // one correct() + getLikelihood() of an existing SUKFCorrection whose model has been programmed for this call
 static void call_sukf(const std::string& pre, SUKFCorrection& sukf, FamilyModel* mp, const GaussianMixture& pred, long s, bool second, long outcomps) {
@@ -186,23 +256,68 @@ int main() {
         }
         // the objects live for the whole case; their measurement models are owned by them and re-programmed per call
         const Step& s0 = steps[0];
+        const Step w0 = twin_of(s0);
+        auto model_on = [&](const Step& st, const MatrixXd& R) {
+            FamilyModel* mp = new FamilyModel(st.fam, R, st.y, n, st.fam.H.rows());
+            mp->nc = nc; mp->mc = mc;
+            return mp;
+        };
+        // how the subjects are obtained
+        const std::string lifetime = c.has_word("lifetime") ? c.word("lifetime")[0] : "fresh";
+        const bool in_vec = lifetime == "vector";
+        const long reloc_at = lifetime == "fresh" ? -1 : (c.has_int("reloc_at") ? c.integer("reloc_at") : 0);
+        const bool assign = c.has_int("assign") && c.integer("assign") != 0;
+        const bool intrude = c.has_int("intrude") && c.integer("intrude") != 0;
+        auto sukf_subject = [&](bool reduced) {
+            Subject<SUKFCorrection> sub;
+            sub.make = [=](FamilyModel* mp) { return new SUKFCorrection(std::unique_ptr<AdditiveMeasurementModel>(mp), alpha, beta, kappa, s, reduced); };
+            sub.emplace = [=](std::vector<SUKFCorrection>& v, FamilyModel* mp) { v.emplace_back(std::unique_ptr<AdditiveMeasurementModel>(mp), alpha, beta, kappa, s, reduced); };
+            return sub;
+        };
+        Subject<SUKFCorrection> sukf_r = sukf_subject(true), sukf_f = sukf_subject(false);
+        Subject<UKFCorrection> ukf;
+        ukf.make = [=](FamilyModel* mp) { return new UKFCorrection(std::unique_ptr<AdditiveMeasurementModel>(mp), alpha, beta, kappa); };
+        ukf.emplace = [=](std::vector<UKFCorrection>& v, FamilyModel* mp) { v.emplace_back(std::unique_ptr<AdditiveMeasurementModel>(mp), alpha, beta, kappa); };
         FamilyModel *mpr = nullptr, *mpf = nullptr, *mpu = nullptr;
-        std::unique_ptr<SUKFCorrection> sukf_r, sukf_f;
-        if (all_block) {
-            mpr = new FamilyModel(s0.fam, s0.Rblock, s0.y, n, s0.fam.H.rows());
-            sukf_r.reset(new SUKFCorrection(std::unique_ptr<AdditiveMeasurementModel>(mpr), alpha, beta, kappa, s, true));
+        if (all_block) { mpr = model_on(s0, s0.Rblock); sukf_r.create(in_vec, mpr); }
+        mpf = model_on(s0, s0.Rfull); sukf_f.create(in_vec, mpf);
+        mpu = model_on(s0, s0.Rfull); ukf.create(in_vec, mpu);
+        // the intruder's twins (constructed like the subjects, never relocated)
+        FamilyModel *tmr = nullptr, *tmf = nullptr, *tmu = nullptr;
+        std::unique_ptr<SUKFCorrection> twin_r, twin_f; std::unique_ptr<UKFCorrection> twin_u;
+        if (intrude) {
+            if (all_block) { tmr = model_on(w0, w0.Rblock); twin_r.reset(sukf_r.make(tmr)); }
+            tmf = model_on(w0, w0.Rfull); twin_f.reset(sukf_f.make(tmf));
+            tmu = model_on(w0, w0.Rfull); twin_u.reset(ukf.make(tmu));
+            for (FamilyModel* mp : {mpr, mpf, mpu}) if (mp) mp->intrudes = true;
         }
-        mpf = new FamilyModel(s0.fam, s0.Rfull, s0.y, n, s0.fam.H.rows());
-        sukf_f.reset(new SUKFCorrection(std::unique_ptr<AdditiveMeasurementModel>(mpf), alpha, beta, kappa, s, false));
-        mpu = new FamilyModel(s0.fam, s0.Rfull, s0.y, n, s0.fam.H.rows());
-        for (FamilyModel* mp : {mpr, mpf, mpu}) if (mp) { mp->nc = nc; mp->mc = mc; }
-        UKFCorrection ukf(std::unique_ptr<AdditiveMeasurementModel>(mpu), alpha, beta, kappa);
 
         for (long t = 1; t <= T; t++) {
             const Step& st = steps[t - 1];
             const std::string tp = seq ? "t" + std::to_string(t) + "_" : "";
             GaussianMixture pred = belief(st, nc);
             const long oc = outcomps >= 0 ? outcomps : (long)pred.components;
+            const Step tw = twin_of(st);
+            const GaussianMixture pred_tw = belief(tw, nc);
+            if (intrude)
+                vf::set_intruder([&]() {
+                    if (twin_r) { program(tmr, tw, tw.Rblock); discard_call(*twin_r, pred_tw); }
+                    program(tmf, tw, tw.Rfull); discard_call(*twin_f, pred_tw);
+                    program(tmu, tw, tw.Rfull); discard_call(*twin_u, pred_tw);
+                });
+            // relocation of the subjects (move construction / move assignment / vector growth) after reloc_at complete calls
+            if (reloc_at >= 0 && ((seq && reloc_at == t - 1) || !seq)) {
+                vf::Entry e("relocation");
+                if (!seq && reloc_at >= 1) {
+                    // single-call case: the use before the relocation is a warm-up call on other data of the same shapes
+                    if (all_block) { program(mpr, tw, tw.Rblock); discard_call(sukf_r.get(), pred_tw); }
+                    program(mpf, tw, tw.Rfull); discard_call(sukf_f.get(), pred_tw);
+                    program(mpu, tw, tw.Rfull); discard_call(ukf.get(), pred_tw);
+                }
+                if (all_block) sukf_r.relocate(assign, [&]() { return model_on(tw, tw.Rblock); });
+                sukf_f.relocate(assign, [&]() { return model_on(tw, tw.Rfull); });
+                ukf.relocate(assign, [&]() { return model_on(tw, tw.Rfull); });
+            }
             // the SVD factor sigma_point() uses (same Eigen call; the model takes it as its square-root oracle)
             for (long i = 0; i < (long)pred.components; i++) {
                 MatrixXd P = pred.covariance(i);
@@ -210,10 +325,15 @@ int main() {
                 MatrixXd A = svd.matrixU() * svd.singularValues().cwiseSqrt().asDiagonal();
                 vf::out_mat(tp + "A" + std::to_string(i), A);
             }
-            if (all_block) { program(mpr, st, st.Rblock); call_sukf(tp + "r_", *sukf_r, mpr, pred, s, !seq, oc); }
-            program(mpf, st, st.Rfull); call_sukf(tp + "f_", *sukf_f, mpf, pred, s, !seq, oc);
-            program(mpu, st, st.Rfull); call_ukf(tp, ukf, pred, nc, oc);
+            if (all_block) { program(mpr, st, st.Rblock); call_sukf(tp + "r_", sukf_r.get(), mpr, pred, s, !seq, oc); }
+            program(mpf, st, st.Rfull); call_sukf(tp + "f_", sukf_f.get(), mpf, pred, s, !seq, oc);
+            program(mpu, st, st.Rfull); call_ukf(tp, ukf.get(), pred, nc, oc);
+            vf::clear_intruder();
         }
+        vf::out_int("relocations", sukf_f.relocations + ukf.relocations + sukf_r.relocations);
+        vf::out_int("move_assigned", sukf_f.assigned + ukf.assigned + sukf_r.assigned);
+        vf::out_int("move_assignable", (std::is_move_assignable<SUKFCorrection>::value ? 1 : 0) + (std::is_move_assignable<UKFCorrection>::value ? 2 : 0));
+        if (intrude) vf::out_int("intruder_calls", vf::intruder_state().calls);
         vf::out_end();
     }
     return 0;
